@@ -5,7 +5,7 @@ distinct qubit labels and two sentinel angles; each emitted gate is recovered as
 (name, which input qubit, angle = a*theta + b*pi/8 with small rationals).  The extraction is
 validated on every run by instantiating the templates on random placements/angles and
 comparing with what the function really returns."""
-import importlib, math, os, random
+import importlib, math, os, random, re
 from fractions import Fraction
 
 from vlib.core import TranslatorError
@@ -21,6 +21,12 @@ SHAPE.update({"FREDKIN": (1, 2), "TOFFOLI": (2, 1), "GLOBALPHASE": (0, 0)})
 PARAMETRIC = set("RX RY RZ PHASEGATE CRX CRY CRZ CPHASE GLOBALPHASE SWAPalpha".split())
 BASES = ["CSIGN", "ISWAP", "SQRTSWAP", "SQRTISWAP"]
 T1, T2 = 0.7310585786300049, 1.9151305816892773
+PROBE_LABEL = "probe-label"
+LABEL = re.compile(r"^(-?)(\d*)\\pi(?:/(\d+))?$")          # k\pi/m as the source writes it
+# every attribute of a gate object a rule may set, and the value a rule must leave it at
+PLAIN_FIELDS = {"control_value": None, "classical_controls": None, "classical_control_value": None, "style": None,
+                "latex_str": "U"}
+KNOWN_ATTRS = {"name", "targets", "controls", "arg_value", "arg_label"} | set(PLAIN_FIELDS)
 
 
 def _mods():
@@ -30,14 +36,47 @@ def _mods():
     return dec, Gate, QubitCircuit
 
 
-def probe(Gate, name, theta, tq=None, cq=None):
+def probe(Gate, name, theta, tq=None, cq=None, label=PROBE_LABEL):
     nc, nt = SHAPE[name]
     tq = tq if tq is not None else [11 + i for i in range(nt)]
     cq = cq if cq is not None else [21 + i for i in range(nc)]
     kw = {}
     if name in PARAMETRIC:
         kw["arg_value"] = theta
-    return Gate(name, targets=(tq if nt else None), controls=(cq if nc else None), **kw)
+    # the probe carries a value in EVERY field, so that a rule copying any of them shows
+    return Gate(name, targets=(tq if nt else None), controls=(cq if nc else None), arg_label=label,
+                control_value=(2 ** nc - 1 if nc else None), classical_controls=[3, 1], classical_control_value=2,
+                style={"probe": True}, **kw)
+
+
+def parse_label(lab):
+    """`k\\pi/m` -> (k, m) | None"""
+    m = LABEL.match(lab) if isinstance(lab, str) else None
+    if not m:
+        return None
+    k = (-1 if m.group(1) else 1) * (int(m.group(2)) if m.group(2) else 1)
+    return k, (int(m.group(3)) if m.group(3) else 1)
+
+
+def _label_template(g, Gate, where):
+    """label template of an emitted gate; every other field of the object must be the plain default"""
+    if type(g) is not Gate:
+        raise TranslatorError(f"{where}: emits an object of class {type(g).__name__}, not Gate")
+    extra = set(vars(g)) - KNOWN_ATTRS
+    if extra:
+        raise TranslatorError(f"{where}: emitted {g.name} has unknown attributes {sorted(extra)}")
+    for k, v in PLAIN_FIELDS.items():
+        if getattr(g, k, v) != v:
+            raise TranslatorError(f"{where}: emitted {g.name} has {k}={getattr(g, k)!r}")
+    lab = g.arg_label
+    if lab is None:
+        return ("none",)
+    if lab == PROBE_LABEL:
+        return ("inp",)
+    f = parse_label(lab)
+    if f is None:
+        raise TranslatorError(f"{where}: emitted {g.name} has an unrecognised arg_label {lab!r}")
+    return ("frac",) + f
 
 
 def _aslist(x):
@@ -69,23 +108,29 @@ def _angle(a1, a2):
     return (fa.numerator, fa.denominator, fb)
 
 
-def _templates(out1, out2, tq, cq):
+def _templates(out1, out2, tq, cq, Gate=None, where="rule"):
     if len(out1) != len(out2):
         raise TranslatorError("rule output depends on the angle")
     res = []
+    labs = []
     for g1, g2 in zip(out1, out2):
+        l1, l2 = _label_template(g1, Gate, where), _label_template(g2, Gate, where)
+        if l1 != l2:
+            raise TranslatorError(f"{where}: label depends on the angle")
+        labs.append(l1)
         if g1.name != g2.name or _aslist(g1.targets) != _aslist(g2.targets) or _aslist(g1.controls) != _aslist(g2.controls):
             raise TranslatorError("rule output depends on the angle")
         if g1.name not in GNAMES:
             raise TranslatorError(f"rule emits unknown gate {g1.name}")
         res.append((g1.name, [_sel(q, tq, cq) for q in _aslist(g1.targets)],
                     [_sel(q, tq, cq) for q in _aslist(g1.controls)], _angle(g1.arg_value, g2.arg_value)))
-    return res
+    return res, labs
 
 
 def extract():
     dec, Gate, QubitCircuit = _mods()
     gate_rules = {}
+    gate_labs, basis_labs = {}, {}
     for name in GNAMES:
         f = getattr(dec, "_gate_" + name, None)
         if f is None:
@@ -109,7 +154,10 @@ def extract():
             gate_rules[name] = (kind,)
             continue
         nc, nt = SHAPE[name]
-        gate_rules[name] = ("templ", _templates(outs[0], outs[1], [11 + i for i in range(nt)], [21 + i for i in range(nc)]))
+        tpl, labs = _templates(outs[0], outs[1], [11 + i for i in range(nt)], [21 + i for i in range(nc)], Gate,
+                               "_gate_" + name)
+        gate_rules[name] = ("templ", tpl)
+        gate_labs[name] = labs
     basis_rules = {}
     for y in BASES:
         f = getattr(dec, "_basis_" + y, None)
@@ -129,13 +177,21 @@ def extract():
             if same:
                 continue
             nc, nt = SHAPE[name]
-            basis_rules[(y, name)] = _templates(outs[0], outs[1], [11 + i for i in range(nt)], [21 + i for i in range(nc)])
-    return gate_rules, basis_rules
+            tpl, labs = _templates(outs[0], outs[1], [11 + i for i in range(nt)], [21 + i for i in range(nc)], Gate,
+                                   f"_basis_{y}[{name}]")
+            basis_rules[(y, name)] = tpl
+            basis_labs[(y, name)] = labs
+    return gate_rules, basis_rules, gate_labs, basis_labs
 
 
-def validate(gate_rules, basis_rules, rng):
+def validate(gate_rules, basis_rules, rng, gate_labs=None, basis_labs=None):
     """Instantiate the extracted templates on random placements and angles and compare with the real functions."""
     dec, Gate, QubitCircuit = _mods()
+
+    def labels_ok(labs, g, out, where):
+        if labs is None:
+            return True
+        return len(labs) == len(out) and all(_label_template(o, Gate, where) == l for o, l in zip(out, labs))
 
     def inst(tpl, g):
         res = []
@@ -169,7 +225,8 @@ def validate(gate_rules, basis_rules, rng):
             g = probe(Gate, name, rng.uniform(-7, 7), qs[:nt], qs[nt:])
             out = []
             getattr(dec, "_gate_" + name)(g, out)
-            if not close(inst(rule[1], g), canon(out)):
+            if not close(inst(rule[1], g), canon(out)) or \
+                    not labels_ok((gate_labs or {}).get(name), g, out, "_gate_" + name):
                 raise TranslatorError(f"extracted template of _gate_{name} does not reproduce the function")
         for (y, name), tpl in basis_rules.items():
             nc, nt = SHAPE[name]
@@ -177,7 +234,8 @@ def validate(gate_rules, basis_rules, rng):
             g = probe(Gate, name, rng.uniform(-7, 7), qs[:nt], qs[nt:])
             qc = QubitCircuit(40)
             getattr(dec, "_basis_" + y)(qc, [g])
-            if not close(inst(tpl, g), canon(qc.gates)):
+            if not close(inst(tpl, g), canon(qc.gates)) or \
+                    not labels_ok((basis_labs or {}).get((y, name)), g, qc.gates, f"_basis_{y}[{name}]"):
                 raise TranslatorError(f"extracted template of _basis_{y}[{name}] does not reproduce the function")
 
 
@@ -231,6 +289,38 @@ def render(gate_rules, basis_rules):
     return "\n".join(L) + "\n"
 
 
+def _llab(l):
+    if l[0] == "frac":
+        k = f"({l[1]})" if l[1] < 0 else str(l[1])
+        return f".frac {k} {l[2]}"
+    return "." + l[0]
+
+
+def render_labels(gate_rules, basis_rules, gate_labs, basis_labs):
+    L = ["import QipVerif.Model.DecomposeF",
+         "/-! GENERATED by py/translate/decomp.py from /repo/src/qutip_qip/circuit/_decompose.py — do not edit.",
+         "`arg_label` of every gate a rule emits, position by position next to the bodies of `Gen/DecompTables.lean`; every",
+         "other field of the emitted objects (class, control_value, classical condition, style, latex_str) was checked to be",
+         "the plain default by the extraction. -/",
+         "namespace QipVerif.Gen\nopen QipVerif QipVerif.Decomp\n",
+         "def gateLab : GName → List TLab"]
+    for name, rule in gate_rules.items():
+        if rule[0] == "templ":
+            if len(gate_labs[name]) != len(rule[1]):
+                raise TranslatorError(f"_gate_{name}: {len(gate_labs[name])} labels for {len(rule[1])} gates")
+            L.append(f"  | .{name} => [{', '.join(_llab(l) for l in gate_labs[name])}]")
+    L.append("  | _ => []\n")
+    L.append("def basisLab : GName → GName → List TLab")
+    for (y, name), tpl in basis_rules.items():
+        if len(basis_labs[(y, name)]) != len(tpl):
+            raise TranslatorError(f"_basis_{y}[{name}]: label count")
+        L.append(f"  | .{y}, .{name} => [{', '.join(_llab(l) for l in basis_labs[(y, name)])}]")
+    L.append("  | _, _ => []\n")
+    L.append("def labels : LabTables := ⟨gateLab, basisLab⟩\n")
+    L.append("end QipVerif.Gen")
+    return "\n".join(L) + "\n"
+
+
 def write_if_changed(path, content):
     if os.path.exists(path) and open(path).read() == content:
         return False
@@ -261,10 +351,12 @@ def rule_modules(gate_rules, basis_rules):
 
 
 def regenerate(seed=0):
-    gate_rules, basis_rules = extract()
-    validate(gate_rules, basis_rules, random.Random(seed))
+    gate_rules, basis_rules, gate_labs, basis_labs = extract()
+    validate(gate_rules, basis_rules, random.Random(seed), gate_labs, basis_labs)
     gdir = os.path.join(LEAN, "QipVerif", "Gen")
     changed = write_if_changed(os.path.join(gdir, "DecompTables.lean"), render(gate_rules, basis_rules))
+    changed |= write_if_changed(os.path.join(gdir, "DecompLabels.lean"),
+                                render_labels(gate_rules, basis_rules, gate_labs, basis_labs))
     mods = rule_modules(gate_rules, basis_rules)
     for mod, src in mods.items():
         changed |= write_if_changed(os.path.join(gdir, mod + ".lean"), src)
